@@ -273,7 +273,7 @@ theorem send_timer (k : Kcp) (b : Bytes) (h : TimerInv k) : TimerInv (send k b).
   simp only []
   refine ite_pred (fun r : SendRes => TimerInv r.k) _ h ?_
   refine ite_pred (fun r : SendRes => TimerInv r.k) _ h ?_
-  refine ite_pred (fun r : SendRes => TimerInv r.k) _ ⟨h.1, hq1 _ _⟩ ?_
+  refine ite_pred (fun r : SendRes => TimerInv r.k) _ h ?_
   refine ite_pred (fun r : SendRes => TimerInv r.k) _ ⟨h.1, hq1 _ _⟩ ?_
   refine ite_pred (fun r : SendRes => TimerInv r.k) _ ⟨h.1, hq1 _ _⟩ ?_
   refine ⟨h.1, ?_⟩
